@@ -42,10 +42,10 @@ type Result struct {
 }
 
 type Client struct {
-	c       net.Conn
-	r       *bufio.Reader
-	n       int
-	Timeout time.Duration
+	c        net.Conn
+	r        *bufio.Reader
+	n        int
+	Timeout  time.Duration
 	Greeting string
 }
 
@@ -244,10 +244,10 @@ var (
 
 // Ev is an interpreted untagged response relevant to the mailbox view.
 type Ev struct {
-	Kind  string // EXISTS RECENT EXPUNGE FETCH
-	N     int
-	UID   int      // 0 = not present
-	Flags []string // nil = not present; sorted lower-case without backslash normalisation
+	Kind     string // EXISTS RECENT EXPUNGE FETCH
+	N        int
+	UID      int      // 0 = not present
+	Flags    []string // nil = not present; sorted lower-case without backslash normalisation
 	HasFlags bool
 }
 
